@@ -265,7 +265,17 @@ impl PackHeader {
         // guess the header size from size_hint and pack_size
         // If the guess is too small, we have to re-read. If the guess is too large, we have to have read too much
         // but this should normally not matter too much. So we try to overguess here...
-        let size_guess = size_hint.unwrap_or(0);
+        if pack_size < constants::LENGTH_LEN {
+            return Err(RusticError::new(
+                ErrorKind::Internal,
+                "Pack size `{pack_size}` is too small to contain the header length!",
+            )
+            .attach_context("pack_size", pack_size.to_string()));
+        }
+        // the guess cannot be larger than what the pack file can contain
+        let size_guess = size_hint
+            .unwrap_or(0)
+            .min(pack_size - constants::LENGTH_LEN);
 
         // read (guessed) header + length field
         let read_size = size_guess + constants::LENGTH_LEN;
@@ -284,7 +294,7 @@ impl PackHeader {
             .to_u32();
         trace!("header size: {size_real}");
 
-        if size_real + constants::LENGTH_LEN > pack_size {
+        if size_real > pack_size - constants::LENGTH_LEN {
             return Err(RusticError::new(
                 ErrorKind::Internal,
                 "Read header length `{size_real}` + `{length}` is larger than `{pack_size}`!",
